@@ -145,5 +145,7 @@ _run_structs = run
 def run(ctx, rep, tier):
     _run_structs(ctx, rep, tier)
     from . import structs
+    from .shared import delegate
+    delegate(ctx, rep, tier, "C01", ("C01.d",), "C16.g", "no-match transitions of every match kind are built fall-through: the restart edges of a wait are these transitions retargeted, and rely on it")
     structs.check_copy_complete(ctx, rep, "C16.e")
     structs.check_cull_policy(ctx, rep, "C16.f")
